@@ -6,7 +6,7 @@ import ast
 from vlib.core import AnalysisError, Report
 from vlib.schema import dict_keys, returned_dicts, subscripted_keys, typeddict_keys
 from vlib.flow import parent_map
-from vlib.match import FI, X, atoms, atoms_via, calls, closure, expand_use, facts, has_call, inlined_bodies2, nodes
+from vlib.match import FI, X, atoms, atoms_via, calls, closure, deref, expand_use, facts, has_call, inlined_bodies2, nodes
 from vlib.srcindex import SourceIndex, attr_chain, const_str, unparse, walk_no_nested
 
 EXPLANATION = (
@@ -267,17 +267,34 @@ def run(rep: Report, tier: str) -> None:
 		if isinstance(it, ast.Call) and unparse(it.func) == 'self._order_keys' and isinstance(tgt, ast.Name):
 			tj_ok = any(unparse(c_.func).endswith('.serialize') and c_.args and unparse(c_.args[0]) == f'self[{tgt.id}]' for c_ in nodes(g, ast.Call))
 	rd.check(tj_ok, 'to_json', tj.where, 'to_json no longer maps _order_keys(for_module_path) to serializer.serialize(self[key])')
-	ijx = X(ij)
+	from vlib.match import split_tuple_assigns
+	ijx = split_tuple_assigns(X(ij))
 	stores = []
 	for lp in nodes(ijx, ast.For):
 		if isinstance(lp.target, ast.Tuple) and len(lp.target.elts) == 2 and isinstance(lp.iter, ast.Call) and unparse(lp.iter.func).endswith('.items'):
 			kv, rv = unparse(lp.target.elts[0]), unparse(lp.target.elts[1])
 			for n in nodes(lp, ast.Assign):
-				if unparse(n.targets[0]) == f'self[{kv}]' and isinstance(n.value, ast.Call) and unparse(n.value.func).endswith('.deserialize') and [unparse(a) for a in n.value.args] == ['self', rv]:
+				val = deref(ijx, n.value)
+				if unparse(n.targets[0]) == f'self[{kv}]' and isinstance(val, ast.Call) and unparse(val.func).endswith('.deserialize') and [unparse(a) for a in val.args] == ['self', rv]:
 					stores.append((lp, kv))
 	rd.check(bool(stores), 'import-store', ij.where, 'import_json no longer stores serializer.deserialize(self, row) under the row key')
-	completes = bool(stores) and any(c_.args and unparse(c_.args[0]) == stores[0][1] for c_ in calls(stores[0][0], 'ModuleDSN.parsed')) and has_call(stores[0][0], 'self.on_complete')
-	rd.check(completes, 'import-completes', ij.where, 'import_json no longer marks the module of each key as completed')
+	if stores:
+		lp, kv = stores[0]
+		marks = calls(lp, 'self.on_complete')
+		if not marks:
+			rd.violate('import-completes', ij.where, 'import_json no longer marks the module of each key as completed')
+		for c_ in marks:
+			arg = expand_use(ijx, c_.args[0]) if c_.args else None
+			# the key used as index of the table (`self[key]`) is the stored symbol, not the key: names inside such subscripts do not count
+			inside = {id(x) for sub in (ast.walk(arg) if arg is not None else []) if isinstance(sub, ast.Subscript) and unparse(sub.value) == 'self' for x in ast.walk(sub.slice)}
+			names = {n.id for n in ast.walk(arg) if isinstance(n, ast.Name) and id(n) not in inside} if arg is not None else set()
+			parsed = arg is not None and any(x.args and unparse(x.args[0]) == kv for x in calls(arg, 'ModuleDSN.parsed'))
+			if parsed:
+				rd.ok('import-completes', ij.where, message=f'on_complete({unparse(arg)[:60]})')
+			elif kv not in names:
+				rd.violate('import-completes', (db.relpath, c_.lineno), f'import_json marks `{unparse(c_.args[0]) if c_.args else ""}` as completed, which is not derived from the row key `{kv}`: the rows of a module are filed under the module of their key (__setitem__), while e.g. the declaration of an imported name lives in ANOTHER module, so a module holding only import rows is never marked completed and the declaring module is marked although its own rows were not imported', unparse(c_))
+			else:
+				rd.skip('import-completes', (db.relpath, c_.lineno), f'on_complete({unparse(arg)[:80]}) derives the module from the key by a shape this check does not read')
 	rd.check(has_call(X(si), 'ModuleDSN.parsed'), 'setitem-parser', si.where, '__setitem__ no longer files the key with ModuleDSN.parsed (import_json derives the module path with the same parser)')
 
 
